@@ -612,7 +612,7 @@ func checkCmd(opts *RunOpts, args []string) int {
 	}
 	if run.DRan {
 		_, vl, cv := boundedListVerdict(opts, prop, known, "bounded.dispose.scenarios", "none.txt", run.DFailing, run.DTotal,
-			"disposal landing {idle, inside a final handler, inside a negotiation handler, twice, DisposeForce, parent context canceled} x Start active or not x with or without the Disposing/Disposed mixin handlers",
+			"disposal landing {idle, inside a final handler, inside a negotiation handler, from another goroutine during a running handler, twice, DisposeForce, parent context canceled, after all handlers were detached (plain and forced)} x Start active or not x with or without the Disposing/Disposed mixin handlers; an Eval with its own live context pending at disposal; handler goroutine gone afterwards",
 			"", "leave a waiter, a state context or the caller hanging, or run a dispose handler not exactly once", nil)
 		if vl != "" {
 			violations = append(violations, vl)
@@ -621,7 +621,7 @@ func checkCmd(opts *RunOpts, args []string) int {
 	}
 	if run.QRan {
 		_, vl, cv := boundedListVerdict(opts, prop, known, "bounded.queue.drain", "none.txt", run.QFailing, run.QTotal,
-			"states A,B,C (CEnter vetoes or not), Add A whose final handler issues every script of up to 2 Add/Remove mutations",
+			"states A,B,C (CEnter vetoes or not), Add A; every script of up to 2 Add/Remove mutations issued from A's final handler, and from a tracer's QueueEnd hook",
 			"", "break the queue discipline (nested mutations are queued, run in queue-tick order, none lost, WhenQueue released for accepted and canceled ones)", nil)
 		if vl != "" {
 			violations = append(violations, vl)
@@ -643,6 +643,29 @@ func checkCmd(opts *RunOpts, args []string) int {
 		cov_rel = cv
 	}
 	notes = append(notes, run.ExtraNotes...)
+	// a stand-in program that produced no result: if the REAL code crashed, deadlocked or hung
+	// while running the family, that is a concrete failing history (violation, with the output
+	// as the replay); if the program could not be built (an API it uses changed), the family is
+	// undecided - said so, never silently skipped
+	for _, se := range run.StandinErrs {
+		name := "bounded." + strings.ReplaceAll(se[0], " ", "_") + ".run"
+		crash := false
+		for _, mark := range []string{"panic:", "fatal error:", "signal: killed", "all goroutines are asleep", "context deadline exceeded", "exit status 2"} {
+			if strings.Contains(se[1], mark) {
+				crash = true
+			}
+		}
+		if crash {
+			dir := filepath.Join(outRoot(opts), "replays", prop)
+			os.MkdirAll(dir, 0o755)
+			rp := filepath.Join(dir, sanitize(name)+".replay.txt")
+			os.WriteFile(rp, []byte(fmt.Sprintf("property: %s\nobligation: %s\nkind: the bounded stand-in program (%s family) crashed or hung while driving the real code; it runs to completion on the baseline tree\noutput:\n%s\n", prop, name, se[0], se[1])), 0o644)
+			violations = append(violations, fmt.Sprintf("VIOLATION property=%s replay=%s obligation=%s the real code crashed or hung under the bounded %s family: %s", prop, rp, name, se[0], firstLines(se[1], 2)))
+		} else {
+			undecided = append(undecided, fmt.Sprintf("UNDECIDED property=%s obligation=%s the bounded %s stand-in could not be built or run (tool limit, not an alarm): %s", prop, name, se[0], firstLines(se[1], 2)))
+		}
+		notes = append(notes, "bounded "+se[0]+" stand-in did not run: "+se[1])
+	}
 	for _, l := range knownLines {
 		fmt.Println(l)
 	}
